@@ -6,6 +6,7 @@ parent on the digest of the canonical state."""
 import time
 
 from .runner import Acc, make_pool, pmap, NPROC, lib_exception
+from .rt import Runaway
 
 
 class Spec:
@@ -31,7 +32,7 @@ def _expand(args):
         h = hist + [s]
         try:
             dig, probs, info = spec_mod.step(h)
-        except Exception as e:
+        except (Exception, Runaway) as e:
             d = lib_exception(e)
             if d is None:
                 raise
@@ -44,7 +45,7 @@ def _probe(args):
     spec_mod, hist = args
     try:
         return hist, _mod(spec_mod).probe(hist)
-    except Exception as e:
+    except (Exception, Runaway) as e:
         d = lib_exception(e)
         if d is None:
             raise
